@@ -148,6 +148,9 @@ def lib_attr(it, obj, name: str, node=None) -> z3.ExprRef:
     if k == "ref":
         c = st.class_id_of(obj)
         if c is None:
+            if name in ("args", "__cause__", "__traceback__", "__context__") and \
+                    st.entails(V.subclass(V.class_of(V.addr(obj)), it.ct.id("BaseException"))):
+                return st.get(obj, name)
             return it.engine.unknown_attr(it, obj, name, node)
         cname = it.ct.name(c)
         if it.ct.is_sub(c, it.ct.id("BaseException")) and name in ("args", "__cause__", "__traceback__", "exceptions"):
@@ -213,7 +216,7 @@ def seq_view(it, v):
     if k == "ref":
         c = st.class_id_of(v)
         if c is not None and it.ct.name(c) in ("list", "deque", "set", "frozenset", "dict", "OrderedDict",
-                                               "mappingproxy"):
+                                               "mappingproxy", "tuple"):
             return st.get(v, "$arr"), st.get(v, "$lo"), st.get(v, "$hi")
     return None
 
@@ -252,7 +255,7 @@ def concrete_items(it, v):
         return tuple_items(it, v)
     if k == "ref":
         c = st.class_id_of(v)
-        if c is not None and it.ct.name(c) in ("list", "deque"):
+        if c is not None and it.ct.name(c) in ("list", "deque", "tuple"):
             lo, hi = st.get(v, "$lo"), st.get(v, "$hi")
             if z3.is_int_value(lo) and z3.is_int_value(hi):
                 arr = st.get(v, "$arr")
@@ -330,12 +333,8 @@ def concat_literal(it, segs, kind: str) -> z3.ExprRef:
         body = z3.If(z3.And(i >= a, i < b), val, body)
     arr = z3.Lambda([i], body)
     total = st.simp(pos)
-    if kind == "tuple":
-        l = st.fresh("cat", V.Lst)
-        st.assume(tup_len(l) == total)
-        st.assume(tup_arr(l) == arr)
-        return V.VTup(l)
-    return new_seq_from(it, "list", arr, z3.IntVal(0), total)
+    # a tuple of unknown length is a heap object of class tuple (no array-equals-lambda equations)
+    return new_seq_from(it, "tuple" if kind == "tuple" else "list", arr, z3.IntVal(0), total)
 
 
 def as_tuple(it, v) -> z3.ExprRef:
@@ -345,19 +344,11 @@ def as_tuple(it, v) -> z3.ExprRef:
     if sv is None:
         raise Unsupported("*args over non-sequence")
     arr, lo, hi = sv
-    l = it.st.fresh("astup", V.Lst)
-    i = z3.Int("i!t")
-    it.st.assume(tup_len(l) == hi - lo)
-    it.st.assume(tup_arr(l) == z3.Lambda([i], z3.Select(arr, lo + i)))
-    return V.VTup(l)
+    return new_seq_from(it, "tuple", arr, lo, hi)
 
 
 def tuple_prepend(it, extra: list, star) -> z3.ExprRef:
-    t = as_tuple(it, star)
-    l = V.items(t)
-    for x in reversed(extra):
-        l = V.cons(x, l)
-    return V.VTup(l)
+    return concat_literal(it, [("item", x) for x in extra] + [("star", star)], "tuple")
 
 
 def list_of(it, v) -> z3.ExprRef:
@@ -522,7 +513,7 @@ def getitem(it, obj, idx, node=None) -> z3.ExprRef:
     st = it.st
     k = it.kind(obj)
     cn = _cname(it, obj)
-    if k == "tuple" or cn in ("list", "deque"):
+    if k == "tuple" or cn in ("list", "deque", "tuple"):
         n = it.as_num(idx)
         if n is None or n[1] != "int":
             raise Unsupported("non-integer sequence index")
@@ -1390,3 +1381,214 @@ def _object_new(it, lv, ca, node):
     if not z3.is_int_value(c):
         raise Unsupported("object.__new__ of a symbolic class")
     return it.st.alloc(c.as_long())
+
+
+# ------------------------------------------------------------------------------------------------
+# contextvars (T-CV): a ContextVar is an object with the value it has in the *current* context
+#   $cvset: VBool, $cvval: Val.  Tokens remember the previous binding.  Context variables are
+#   task local: they are never havocked by the interference of other tasks.
+# ------------------------------------------------------------------------------------------------
+@spec("new:ContextVar")
+def _new_contextvar(it, lv, ca, node):
+    used("T-CV")
+    st = it.st
+    v = st.alloc("ContextVar")
+    st.put(v, "$cvset", it.mk_bool(False))
+    st.put(v, "$cvval", V.VNone)
+    return v
+
+
+def sym_contextvar(it, name: str) -> z3.ExprRef:
+    """A pre-existing context variable with an arbitrary binding in the current context."""
+    st = it.st
+    v = st.sym_ref(name, "ContextVar")
+    st.assume(V.is_bool(st.get(v, "$cvset")))
+    return v
+
+
+def cv_is_set(it, var) -> z3.ExprRef:
+    return V.bval(it.st.get(var, "$cvset"))
+
+
+def cv_value(it, var) -> z3.ExprRef:
+    return it.st.get(var, "$cvval")
+
+
+@spec("ContextVar.get")
+def _cv_get(it, lv, ca, node):
+    used("T-CV")
+    st = it.st
+    var = lv.bound
+    if st.decide(cv_is_set(it, var), f"ContextVar.get@{it.pos(node)}:set"):
+        return cv_value(it, var)
+    if ca.pos:
+        return ca.pos[0]
+    raise PyRaise(it.new_exc("LookupError"), "context variable has no value")
+
+
+@spec("ContextVar.set")
+def _cv_set(it, lv, ca, node):
+    used("T-CV")
+    st = it.st
+    var = lv.bound
+    tok = st.alloc("Token")
+    st.put(tok, "$tok_var", var)
+    st.put(tok, "$tok_old_set", st.get(var, "$cvset"))
+    st.put(tok, "$tok_old_val", st.get(var, "$cvval"))
+    st.put(tok, "$tok_used", it.mk_bool(False))
+    st.put(tok, "$tok_ctx", st.ghost.get("$current_context", V.VNone))
+    st.put(var, "$cvset", it.mk_bool(True))
+    st.put(var, "$cvval", ca.pos[0])
+    return tok
+
+
+@spec("ContextVar.reset")
+def _cv_reset(it, lv, ca, node):
+    used("T-CV")
+    st = it.st
+    var, tok = lv.bound, ca.pos[0]
+    if not st.decide(st.get(tok, "$tok_var") == var, f"ContextVar.reset@{it.pos(node)}:own-token"):
+        raise PyRaise(it.new_exc("ValueError"), "token was created by a different ContextVar")
+    if not st.decide(st.get(tok, "$tok_ctx") == st.ghost.get("$current_context", V.VNone),
+                     f"ContextVar.reset@{it.pos(node)}:same-context"):
+        raise PyRaise(it.new_exc("ValueError"), "token was created in a different Context")
+    if st.decide(V.bval(st.get(tok, "$tok_used")), f"ContextVar.reset@{it.pos(node)}:used"):
+        raise PyRaise(it.new_exc("RuntimeError"), "token has already been used once")
+    st.put(tok, "$tok_used", it.mk_bool(True))
+    st.put(var, "$cvset", st.get(tok, "$tok_old_set"))
+    st.put(var, "$cvval", st.get(tok, "$tok_old_val"))
+    return V.VNone
+
+
+@spec("contextvars.copy_context")
+def _copy_context(it, lv, ca, node):
+    used("T-CV")
+    st = it.st
+    c = st.alloc("Context")
+    # a snapshot: remembers the bindings of the context variables the contract tracks
+    snap = {}
+    for name, var in st.ghost.get("$tracked_cvs", {}).items():
+        snap[name] = (st.get(var, "$cvset"), st.get(var, "$cvval"))
+    st.ghost.setdefault("$context_snapshots", {})[str(st.simp(V.addr(c)))] = snap
+    st.events.append(("copy_context", c))
+    return c
+
+
+# ------------------------------------------------------------------------------------------------
+# TaskGroup (T-TG) and gather (T-GATHER)
+# ------------------------------------------------------------------------------------------------
+@spec("new:TaskGroup")
+def _new_taskgroup(it, lv, ca, node):
+    used("T-TG")
+    g = it.st.alloc("TaskGroup")
+    it.st.put(g, "$tg_entered", it.mk_bool(False))
+    it.st.put(g, "$tg_exited", it.mk_bool(False))
+    return g
+
+
+@spec("TaskGroup.__aenter__")
+def _tg_aenter(it, lv, ca, node):
+    from .interp import AwaitableV
+    return it.st.reg_fun(AwaitableV("tg-enter", {"group": lv.bound}))
+
+
+@spec("await:tg-enter")
+def _await_tg_enter(it, aw, idx, node):
+    it.st.put(aw.data["group"], "$tg_entered", it.mk_bool(True))
+    return aw.data["group"]
+
+
+@spec("TaskGroup.__aexit__")
+def _tg_aexit(it, lv, ca, node):
+    from .interp import AwaitableV
+    et = ca.arg(0, "et")
+    exc = ca.arg(1, "exc")
+    tb = ca.arg(2, "tb")
+    return it.st.reg_fun(AwaitableV("tg-exit", {"group": lv.bound, "et": et, "exc": exc, "tb": tb}))
+
+
+@spec("await:tg-exit")
+def _await_tg_exit(it, aw, idx, node):
+    """T-TG: returns only when every member task is done; members are cancelled when the body
+    failed or the parent is cancelled while waiting.  Outcome: returns a falsy value, raises a
+    BaseExceptionGroup of member errors (and the body's error), or raises CancelledError - either
+    the body's own cancellation (the same object) or one that arrived during the wait."""
+    st = it.st
+    g = aw.data["group"]
+    st.put(g, "$tg_exited", it.mk_bool(True))
+    st.events.append(("tg-exit", g, aw.data["et"], aw.data["exc"], aw.data["tb"]))
+    exc = aw.data["exc"]
+    c = st.contract
+    alts = [("returns", True), ("raises-group", True)]
+    body_cancelled = None
+    if exc is not None and it.kind(exc) == "ref":
+        body_cancelled = V.subclass(V.class_of(V.addr(exc)), it.ct.id("CancelledError"))
+        alts.append(("reraises-body-cancellation", body_cancelled))
+    else:
+        alts.append(("reraises-body-cancellation", False))
+    allow = c is None or not hasattr(c, "cancel_during_taskgroup_exit") or c.cancel_during_taskgroup_exit(it)
+    alts.append(("cancelled-while-waiting", bool(allow)))
+    j = st.fork(f"await#{idx}:taskgroup-exit", alts)
+    if j == 0:
+        return V.VNone
+    if j == 1:
+        e = st.alloc("BaseExceptionGroup")
+        raise PyRaise(e, "TaskGroup: unhandled errors in members")
+    if j == 2:
+        raise PyRaise(exc, "TaskGroup re-raises the body's CancelledError")
+    raise PyRaise(it.new_exc("CancelledError"), "cancelled while the TaskGroup waits for its members")
+
+
+coro_app = z3.Function("coro_app", Val, Val, Val)      # coroutine object of calling async f on x
+flat_arr = z3.Function("flat_arr", V.ArrIV, I, I, V.ArrIV)
+flat_len = z3.Function("flat_len", V.ArrIV, I, I, I)
+
+
+@spec("asyncio.gather")
+def _gather(it, lv, ca, node):
+    from .interp import AwaitableV
+    used("T-GATHER")
+    rex = ca.kw.get("return_exceptions")
+    rex_true = rex is not None and z3.is_true(it.st.simp(it.truthy(rex)))
+    return it.st.reg_fun(AwaitableV("gather", {"pos": list(ca.pos), "star": ca.star, "return_exceptions": rex_true}))
+
+
+@spec("await:gather")
+def _await_gather(it, aw, idx, node):
+    st = it.st
+    c = st.contract
+    if c is None or not hasattr(c, "gather"):
+        raise Unsupported("await gather(...) needs the contract's gather summary")
+    return c.gather(it, aw, idx, node)
+
+
+@spec("itertools.chain.from_iterable")
+def _chain_from_iterable(it, lv, ca, node):
+    used("T-COLL:chain.from_iterable concatenates in order")
+    sv = seq_view(it, ca.pos[0])
+    if sv is None:
+        raise Unsupported("chain.from_iterable over a non-sequence")
+    arr, lo, hi = sv
+    o = new_seq_from(it, "list", flat_arr(arr, lo, hi), z3.IntVal(0), flat_len(arr, lo, hi))
+    it.st.assume(flat_len(arr, lo, hi) >= 0)
+    return o
+
+
+@spec("asyncio.current_task")
+def _current_task(it, lv, ca, node):
+    c = it.st.contract
+    if c is not None and hasattr(c, "current_task"):
+        return c.current_task(it)
+    raise Unsupported("current_task() outside a contract that defines it")
+
+
+@spec("Task.cancelling")
+def _task_cancelling(it, lv, ca, node):
+    """Number of pending cancellation requests of the task (T-FUT)."""
+    used("T-FUT")
+    return it.st.get(lv.bound, "$cancelling")
+
+
+@spec("asyncio.get_event_loop.create_task")
+def _unused(it, lv, ca, node):
+    raise Unsupported("unused")
